@@ -379,4 +379,24 @@ def generate(rng, tier, boost):
     for d in ([32], [-1], [-32], [-33], [0, 31, 32], [1 << 40]):
         add((1101, [T('bc'), d]))
         add((1110, [d]))
+    # ---- J. strings without any letter (prefix of digits / punctuation, every data and checksum
+    #         character a digit): neither lower() nor upper() changes them, they are NOT mixed case and
+    #         valid ones must decode (seeded change C11-17: `not (islower() or isupper())`).  Found by
+    #         rejection sampling on the checksum (one candidate in ~2000), aimed with the writer above
+    DIG = [CHARSET.index(c) for c in '023456789']
+    NOLET = [c for c in range(33, 65) if c != ord('1')] + list(range(91, 97)) + list(range(123, 127))
+    for L in ([3, 5, 5, 8, 10, 13, 20, 20, 40, 40] if big else [5, 10, 20, 20]):
+        n5 = (8 * L + 4) // 5
+        pad = 5 * n5 - 8 * L
+        for _ in range(40000):
+            hrp = ''.join(chr(rng.choice(NOLET)) for _ in range(rng.choice([1, 2, 3])))
+            d = [rng.choice(DIG)] + [rng.choice(DIG) for _ in range(n5)]
+            if d[-1] & ((1 << pad) - 1):
+                continue
+            pm = _polymod(_expand(hrp) + d + [0] * 6) ^ 1
+            if all(((pm >> 5 * (5 - i)) & 31) in DIG for i in range(6)):
+                st = mk_bech32(hrp, d)
+                assert not any(c.isalpha() for c in st)
+                dec(hrp, st)
+                break
     return cases
